@@ -6,3 +6,4 @@ import TsVerif.C15.Props
 #print axioms TsVerif.C15.canonicalize_perm
 #print axioms TsVerif.C15.optimised_accepted_is_accepted_unoptimised
 #print axioms TsVerif.C15.merged_pair_equivalent
+#print axioms TsVerif.C15.merged_pair_equivalent_up_to_names
